@@ -6,6 +6,17 @@ import os
 ROOT = os.path.dirname(os.path.dirname(os.path.abspath(__file__)))
 
 CLAIMED = {
+    "C03": dict(
+        technique="Hypothesis property tests: gradient vs Richardson-extrapolated central differences of the same object's logd; required non-finite outside the support; refusal accepted",
+        text="For generated distributions (all families/parameterisations, Gaussian forms on both sides of the sparse switch, MRFs over "
+             "bc/order/1D-2D with non-zero location, gallery and user-defined densities), likelihoods of Gaussian/Lognormal data "
+             "distributions over generated models (matrix, function pair, Jacobian, direction-Jacobian) and geometries, posteriors and "
+             "multiple-likelihood posteriors, every returned gradient must equal the numerical derivative of the same object's logd in "
+             "parameter space; exceptions are refusals; outside the support a finite vector is a violation; with enable_FD() the "
+             "forward-difference gradient must equal the derivative with a looser tolerance.",
+        note="Trusted: numpy; derivative error estimate |D(h)-D(h/2)| must be below 1e-3 relative or the case is inconclusive; "
+             "points at kinks (Laplace location, cusp of CalSom91/donut at the origin) are moved away. PDE-based model gradients: C18.",
+        design="3/C03"),
     "C04": dict(
         technique="Hypothesis property tests against scipy.stats / docstring reference densities, adaptive quadrature for normalisation and cdf, metamorphic equality of all Gaussian parameterisations",
         text="Generated parameters, passing modes (vector, scalar broadcast over geometry=n and (a,b), list, callable conditioned later) "
